@@ -405,6 +405,9 @@ func verif_UpdateAll(pm *Manager, proxyCfgs []v1.ProxyConfigurer) {
 	verif.ResetEvents()
 	pm.UpdateAll(proxyCfgs)
 	verif.Ensures(!verif.Held(&pm.mu), "lock_released")
+	// the removal pass (verifReloadDrop) and the start pass run for every new
+	// configuration, the empty one included
+	verif.Ensures(verif.Called("loop:(*github.com/fatedier/frp/client/proxy.Manager).UpdateAll#1") && verif.Called("loop:(*github.com/fatedier/frp/client/proxy.Manager).UpdateAll#2"), "removal_and_start_pass_run_for_every_configuration")
 }
 
 // Close stops every wrapper and forgets them.
@@ -630,8 +633,37 @@ func verif_client_SUDPProxy_InWorkConn(pxy *SUDPProxy, conn net.Conn, m *msg.Sta
 //verif:props C03
 //verif:kinds post,pre
 func verif_client_UDPProxy_InWorkConn(pxy *UDPProxy, conn net.Conn, m *msg.StartWorkConn) {
+	enc, comp := pxy.cfg.Transport.UseEncryption, pxy.cfg.Transport.UseCompression
+	token := pxy.clientCfg.Auth.Token
+	lim := pxy.limiter
 	verif.ResetEvents()
 	pxy.InWorkConn(conn, m)
+	// the stream the datagram messages travel on: the same stack as the sudp
+	// proxy's, the one frps undoes - the limiter (if any) directly on the work
+	// connection, encryption keyed by the token above it, compression on top; no
+	// declared layer is built and then left out of the stack
+	const evEncC, evCompC, evWrap = "golib/io.WithEncryption", "golib/io.WithCompression$", "net.WrapReadWriteCloserToConn"
+	if verif.Called(evWrap) {
+		var below any = conn
+		if lim != nil {
+			verif.Ensures(verif.Same(verif.NthArg[any]("limit.NewReader", 0, 0), below) && verif.Same(verif.NthArg[any]("limit.NewWriter", 0, 0), below) && verif.CalledWith("limit.NewReader", 1, lim) && verif.CalledWith("limit.NewWriter", 1, lim), "limiter_directly_on_the_work_connection")
+			below = any(verif.Ret[io.ReadWriteCloser]("golib/io.WrapReadWriteCloser", 0))
+		} else {
+			verif.Ensures(!verif.Called("limit.NewReader") && !verif.Called("limit.NewWriter"), "no_limiter_unless_configured")
+		}
+		verif.Ensures(verif.Called(evEncC) == enc && verif.Called(evCompC) == comp, "layers_iff_configured")
+		if enc {
+			verif.Ensures(verif.Same(verif.NthArg[any](evEncC, 0, 0), below) && verif.CalledWith(evEncC, 1, []byte(token)), "encryption_keyed_by_token_below_compression")
+			below = verif.Ret[any](evEncC, 0)
+		}
+		if comp {
+			verif.Ensures(verif.Same(verif.NthArg[any](evCompC, 0, 0), below), "compression_directly_above")
+			below = verif.Ret[any](evCompC, 0)
+		}
+		verif.Ensures(verif.Same(verif.NthArg[any](evWrap, 0, 0), below) && verif.Same(verif.NthArg[any](evWrap, 0, 1), any(conn)), "top_of_the_stack_is_the_message_stream")
+	} else {
+		verif.Ensures(enc && verif.CalledWith("net.Conn).Close", 0, conn), "work_connection_closed_when_the_cipher_cannot_be_built")
+	}
 	if verif.Called("net.WrapReadWriteCloserToConn") {
 		verif.Ensures(!pxy.closed && pxy.readCh != nil && pxy.sendCh != nil && !verif.Closed(pxy.readCh) && !verif.Closed(pxy.sendCh), "fresh_open_channels_for_the_new_work_connection")
 		verif.Ensures(pxy.workConn == net.Conn(verif.Ret[*netpkg.WrapReadWriteCloserConn]("net.WrapReadWriteCloserToConn", 0)), "bound_to_the_new_work_connection")
